@@ -2098,6 +2098,13 @@ func (m *repoManager) findMatch(kvv kvVersions, v dvid.VersionID) (*storage.KeyV
 		case 0:
 			return nil, 0, nil
 		case 1:
+			// Return the match that survived the pruning above, which is not necessarily
+			// the last one found: with three or more parents a later parent can reach an
+			// older kv that an earlier parent's lineage already superseded.
+			for fv := range foundVs {
+				foundV = fv
+				foundKV = kvv[fv].kv
+			}
 			if foundKV.K == nil {
 				return nil, 0, fmt.Errorf("found nil key in ascending version path for kv: %v", foundKV)
 			}
